@@ -13,7 +13,7 @@ import itertools
 import random
 
 from xv import models
-from xv.models import FLAGS, MARK, ANSI_RED, ANSI_RESET
+from xv.models import FLAGS, MARK, ANSI_RED, ANSI_RESET, ANSI_RED8, ANSI_RESET8
 
 PROPERTY = 'C05'
 LEVEL = 'exploration'
@@ -32,6 +32,7 @@ ASSUMPTIONS = [
     "makes it match; 'wildcard-free' means no three consecutive dots after deleting whitespace",
     "an empty want matches everything (nothing wanted, nothing checked)",
 ]
+TRAILING_TAILS = ['\r', '\r\n', ' \r\n', '\n\n', '  ', '\t\n', '\n\r\n']
 TOKS = ['a', 'b', 'u', ' ', '\n', '\t', '...', '"', "'", MARK, ANSI_RED]
 ALLBITS = list(itertools.product([0, 1], repeat=5))
 NSHARDS = {'quick': 16, 'thorough': 16}
@@ -41,7 +42,7 @@ LENIENT = [0, 1, 2, 3]     # indices of the flags whose switching ON is a lenien
 def required_cells(tier):
     cells = ['law:reflexive', 'law:exact', 'law:monotone:ELLIPSIS', 'law:monotone:NORMALIZE_WHITESPACE',
              'law:monotone:IGNORE_WHITESPACE', 'law:monotone:NORMALIZE_REPR', 'law:monotone:ACCEPT_BLANKLINE',
-             'law:nonblank', 'ref:match', 'ref:nomatch', 'e2e:match', 'e2e:nomatch', 'ellipsis-structured',
+             'law:nonblank', 'law:trailing-whitespace', 'ref:match', 'ref:nomatch', 'e2e:match', 'e2e:nomatch', 'ellipsis-structured',
              'rewrite:many-wildcards']
     cells += ['ref:flags:%s' % ''.join(map(str, b)) for b in ALLBITS]
     return cells
@@ -68,7 +69,7 @@ def make_states():
 
 def plain_text(t):
     """texts for the model-free laws: no quotes, markers, colours, carriage returns"""
-    return ('"' not in t and "'" not in t and MARK not in t and '\x1b' not in t and '\r' not in t
+    return ('"' not in t and "'" not in t and MARK not in t and '\x1b' not in t and '\x9b' not in t and '\r' not in t
             and '<' not in t)
 
 
@@ -80,7 +81,7 @@ class Judge(object):
         self.states = make_states()
         self.n_calls = 0
         self.flagcells = dict.fromkeys(ALLBITS, 0)
-        self.counts = dict.fromkeys(['law:reflexive', 'law:exact', 'law:nonblank', 'ref:match', 'ref:nomatch'] +
+        self.counts = dict.fromkeys(['law:reflexive', 'law:exact', 'law:nonblank', 'law:trailing-whitespace', 'ref:match', 'ref:nomatch'] +
                                     ['law:monotone:' + f for f in FLAGS[:4]] + ['law:monotone:ACCEPT_BLANKLINE'], 0)
 
     def table(self, got, want):
@@ -130,6 +131,22 @@ class Judge(object):
                     if tab[bits]:
                         ctx.violation('law-nonblank', 'got %r differs from wildcard-free want %r in a non-blank '
                                       'character but matches under %s' % (got, want, bits), case, flags=list(bits))
+                        break
+        # ---- law: white space at the very end of either text is never compared (blanks, tabs, LF, CR, CRLF)
+        if documented and not (got.endswith('\\') or want.endswith('\\')):
+            tails = TRAILING_TAILS
+            tail = tails[(len(got) * 7 + len(want)) % len(tails)]
+            for who, g2, w2 in (('got', got + tail, want), ('want', got, want + tail)):
+                if who == 'want' and (MARK in tail or not models.in_reference_domain(g2, w2.replace('\r', ''))):
+                    continue
+                for bits in ALLBITS[::5]:
+                    self.counts['law:trailing-whitespace'] += 1
+                    self.n_calls += 1
+                    r2 = bool(self.check_output(g2, w2, self.states[bits]))
+                    if r2 != tab[bits]:
+                        ctx.violation('law-trailing-whitespace', 'appending %r to the %s changes the verdict: check_output(%r, %r) '
+                                      '-> %r, with the tail -> %r (flags %s)' % (tail, who, got, want, tab[bits], r2, bits), case,
+                                      flags=list(bits), tail=tail, side=who)
                         break
         # ---- law: switching a leniency on keeps a match
         if '\r' not in got and '\r' not in want:
@@ -197,7 +214,10 @@ def random_text(rng):
         elif r < 0.96:
             parts.append('\n' + MARK + '\n')
         else:
-            parts.append(ANSI_RED + rng.choice(WORDS) + ANSI_RESET)
+            if rng.random() < 0.3:
+                parts.append(ANSI_RED8 + rng.choice(WORDS) + ANSI_RESET8)      # 8-bit introducer, no ESC in the text
+            else:
+                parts.append(ANSI_RED + rng.choice(WORDS) + ANSI_RESET)
     return ''.join(parts)
 
 
@@ -246,6 +266,8 @@ def rewrite(rng, t):
             return t[1:-1], op
         return t, op
     if op == 'colour':
+        if rng.random() < 0.4:
+            return t[:i] + ANSI_RED8 + t[i:] + ANSI_RESET8, op
         return t[:i] + ANSI_RED + t[i:] + ANSI_RESET, op
     if op == 'marker':
         return t.replace('\n\n', '\n' + MARK + '\n', 1), op
@@ -313,7 +335,7 @@ def random_pair(rng):
 def e2e_ok_want(want):
     """want texts that survive the doctest layout unchanged: non-empty lines, nothing that the
     labeller reads as prompt, no leading/trailing blanks that the de-indentation would eat"""
-    if not want or want != want.strip('\n') or '\r' in want or '\x1b' in want:
+    if not want or want != want.strip('\n') or '\r' in want or '\x1b' in want or '\x9b' in want:
         return False
     lines = want.split('\n')
     for ln in lines:
